@@ -241,12 +241,8 @@ fn check_mode0(c: &Case, st: &mut Stats, mode: &Mode) -> Check {
     };
     match mode {
         Mode::Mirror => {
-            // "exactly one frame": IP-level lengths must delimit the buffer exactly
-            for p in &d.problems {
-                if p.contains("total length") || p.contains("payload length") || p.contains("UDP length") {
-                    vfail!("returned buffer is not exactly one frame: {} (request {} reply {})", p, hex(&reqf), hex(&r));
-                }
-            }
+            // length fields are C04's business: bytes behind the end of the IP packet (link-layer
+            // padding to the 60-byte minimum, say) do not make a second frame
             mirror_check(&c.scn.cfg, &reqf, &d).map_err(|f| Failure::new(format!("{} | request {} reply {}", f.msg, hex(&reqf[..reqf.len().min(400)]), hex(&r[..r.len().min(400)]))))
         }
         Mode::WellFormed => wf_verdict(&d, &reqf, &r, st),
@@ -272,7 +268,7 @@ impl Prop for C03 {
         "C03"
     }
     fn rule(&self) -> &'static str {
-        "cases = in-scope scenario (MAC, self-IP list, deny list, key; destination MAC drawn from the authorised set) x 0..6 unrelated history steps x one answerable request, optionally with varied IP header fields the responder is not documented to look at (TOS / traffic class, id / flow label, the three IPv4 flag bits with fragment offset 0, TTL / hop limit 1..255), a wrong transport checksum, IPv4 options on echo, a client MAC that is unicast / broadcast / group / zero, an earlier ARP/NS from the client's IP with another MAC (ARP request with sender address = client / target / 0.0.0.0 / other and target hardware address zero / own MAC / broadcast / client's, echo v4/v6 with data 0..1472, neighbour solicitation unicast/solicited-node with NDP options, SYN with PSH/URG/ECE/CWR and payload, handshaken TCP data / UDP carrying an application request of every protocol generator or a hostile STUN TLV list, FIN|ACK; arbitrary addresses and ports incl. 0 and 65535). Oracle: independent decoder; Ethernet/IP/port tuple of the reply is the mirror image of the request's (NS: source = solicited target; STUN change-port: source port = dport+1), buffer is exactly one frame. Non-trivial = a reply exists; distinct by hash of (request, reply). Shadow traffic (vf/shadow.rs): three cases in ten process, before every frame of the case, a sibling of that frame whose result is discarded — the same frame again, or one tuple element (source / destination port, source / destination address, source MAC), one payload bit or the payload length changed; TCP conversations are shadowed whole on a sibling flow validated with its own cookie; sound by the statement of C08, cases whose own flows meet a shadow tuple are excluded and counted."
+        "cases = in-scope scenario (MAC, self-IP list, deny list, key; destination MAC drawn from the authorised set) x 0..6 unrelated history steps x one answerable request, optionally with varied IP header fields the responder is not documented to look at (TOS / traffic class, id / flow label, the three IPv4 flag bits with fragment offset 0, TTL / hop limit 1..255), a wrong transport checksum, IPv4 options on echo, a client MAC that is unicast / broadcast / group / zero, an earlier ARP/NS from the client's IP with another MAC (ARP request with sender address = client / target / 0.0.0.0 / other and target hardware address zero / own MAC / broadcast / client's, echo v4/v6 with data 0..1472, neighbour solicitation unicast/solicited-node with NDP options, SYN with PSH/URG/ECE/CWR and payload, handshaken TCP data / UDP carrying an application request of every protocol generator or a hostile STUN TLV list, FIN|ACK; arbitrary addresses and ports incl. 0 and 65535). Oracle: independent decoder; Ethernet/IP/port tuple of the reply is the mirror image of the request's (NS: source = solicited target; STUN change-port: source port = dport+1); the reply API returns at most one buffer, which must decode as a frame. Non-trivial = a reply exists; distinct by hash of (request, reply). Shadow traffic (vf/shadow.rs): three cases in ten process, before every frame of the case, a sibling of that frame whose result is discarded — the same frame again, or one tuple element (source / destination port, source / destination address, source MAC), one payload bit or the payload length changed; TCP conversations are shadowed whole on a sibling flow validated with its own cookie; sound by the statement of C08, cases whose own flows meet a shadow tuple are excluded and counted."
     }
     fn run(&self, ctx: &mut RunCtx) {
         let n = ctx.share(ctx.tier.n(2_000_000, 20_000_000));
